@@ -141,6 +141,10 @@ func TestACL(t *testing.T) {
 							gen.SetString(ev, ep, v.forbidden)
 						}
 						blob := gen.EncodeEvents([]*historypb.HistoryEvent{ok, ev})
+						if (ei+len(bp.String()))%4 == 3 { // JSON-encoded batch: the serializer reads it just the same
+							blob = gen.EncodeEventsJSON([]*historypb.HistoryEvent{ok, ev})
+							counts["blob_cases_json"]++
+						}
 						if f.IsList() {
 							parent.Mutable(f).List().Append(protoreflect.ValueOfMessage(blob.ProtoReflect()))
 						} else {
